@@ -528,8 +528,12 @@ class Construct(object):
             import collections
             import itertools
 
+            from construct.core import BytesIOWithOffsets
             def restream(data, func):
                 return func(BytesIO(data))
+            def restream_reading(io, length, func):
+                offset = io.tell()
+                return func(BytesIOWithOffsets(io.read(length), io, offset))
             def reuse(obj, func):
                 return func(obj)
 
@@ -4921,7 +4925,7 @@ class Prefixed(Subconstruct):
 
     def _emitparse(self, code):
         sub = self.lengthfield.sizeof() if self.includelength else 0
-        return f"restream(io.read(({self.lengthfield._compileparse(code)})-({sub})), lambda io: ({self.subcon._compileparse(code)}))"
+        return f"restream_reading(io, ({self.lengthfield._compileparse(code)})-({sub}), lambda io: ({self.subcon._compileparse(code)}))"
 
     def _emitseq(self, ksy, bitwise):
         return [
@@ -5043,7 +5047,7 @@ class FixedSized(Subconstruct):
         return length
 
     def _emitparse(self, code):
-        return f"restream(io.read({self.length}), lambda io: ({self.subcon._compileparse(code)}))"
+        return f"restream_reading(io, {self.length}, lambda io: ({self.subcon._compileparse(code)}))"
 
     def _emitfulltype(self, ksy, bitwise):
         return dict(size=repr(self.length).replace("this.",""), **self.subcon._compilefulltype(ksy, bitwise))
